@@ -67,6 +67,12 @@ chk("C16",
     "Coq proof (list reasoning, iff characterisations) + regenerated guards tie + vm_compute table-diff correspondence",
     "DESIGN.md §4 C16")
 
+chk("C17",
+    "Coq theorems: the update phase of check_then_update runs iff an update was requested and (no check phase or confirmed); hence never in --check mode, never after a declined prompt, never with the file list on stdin without --force (check_if_from_stdin), and at most once; for any statements grouped into commit units (autocommitted statements, atomic() blocks), at most one writing unit implies that an error at any statement leaves the index old or new. Tie: check_then_update is translated as an event program and check_if_from_stdin as a boolean function each run and proved equal to the model; the four check-confirm-update commands are checked to call them as (not force, not check) (T1). The 24 mutating subcommands are invoked through click on random indexes with random flag combinations, names, file lists (stdin, empty) and prompt answers with a full index dump before/after; every index-changing invocation is re-run with an OperationalError at each statement on an identically rebuilt index; the observed statement log of each is grouped into commit units and checked in Coq; db init is run with a fault at each statement of an empty database (T2).",
+    "Coq kernel+VM; translator fragment; sqlite transactional semantics incl. DDL; faults at Database.execute_sql; click parsing exercised, not modelled",
+    "Coq proof (case analysis on the event program; induction over commit units) + regenerated-function tie + statement-log / dump-diff correspondence",
+    "DESIGN.md §4 C17")
+
 ALL = [f"C{i:02d}" for i in range(1, 21)]
 NA_REASON = "check not yet built in this revision (planned: see DESIGN.md §7); nothing is claimed for it"
 
